@@ -1308,12 +1308,12 @@ def fam(names, weights=None):
 
 
 SUBS = [
-    Sub("coords", execute, strategy=fam(["tsp", "pdp", "mtsp", "flp", "svrp"]), budget={"quick": 620, "thorough": 12000}, shards=16),
-    Sub("demand_tw", execute, strategy=fam(["cvrp", "cvrptw"], {"cvrptw": 2}), budget={"quick": 520, "thorough": 11000}, shards=16),
-    Sub("prize", execute, strategy=fam(["op", "pctsp"]), budget={"quick": 380, "thorough": 8000}, shards=16),
-    Sub("matrix_multidepot", execute, strategy=fam(["atsp", "mdcpdp"]), budget={"quick": 340, "thorough": 7000}, shards=16),
-    Sub("mtvrp", execute, strategy=fam(["mtvrp"]), budget={"quick": 520, "thorough": 10000}, shards=16),
-    Sub("scheduling", execute, strategy=fam(["fjsp", "jssp", "ffsp", "smtwtp"]), budget={"quick": 420, "thorough": 8000}, shards=16),
-    Sub("graph", execute, strategy=fam(["mcp", "flp"], {"mcp": 2}), budget={"quick": 260, "thorough": 5000}, shards=16),
-    Sub("bulk", execute_bulk, strategy=bulk_cases, budget={"quick": 48, "thorough": 480}, shards=16, weight=3.0),
+    Sub("coords", execute, strategy=fam(["tsp", "pdp", "mtsp", "flp", "svrp"]), budget={"quick": 1856, "thorough": 12000}, shards=16),
+    Sub("demand_tw", execute, strategy=fam(["cvrp", "cvrptw"], {"cvrptw": 2}), budget={"quick": 1568, "thorough": 11000}, shards=16),
+    Sub("prize", execute, strategy=fam(["op", "pctsp"]), budget={"quick": 1136, "thorough": 8000}, shards=16),
+    Sub("matrix_multidepot", execute, strategy=fam(["atsp", "mdcpdp"]), budget={"quick": 1024, "thorough": 7000}, shards=16),
+    Sub("mtvrp", execute, strategy=fam(["mtvrp"]), budget={"quick": 1568, "thorough": 10000}, shards=16),
+    Sub("scheduling", execute, strategy=fam(["fjsp", "jssp", "ffsp", "smtwtp"]), budget={"quick": 1264, "thorough": 8000}, shards=16),
+    Sub("graph", execute, strategy=fam(["mcp", "flp"], {"mcp": 2}), budget={"quick": 784, "thorough": 5000}, shards=16),
+    Sub("bulk", execute_bulk, strategy=bulk_cases, budget={"quick": 144, "thorough": 480}, shards=16, weight=3.0),
 ]
